@@ -34,6 +34,10 @@ type c27Outcome struct {
 func c27Compare(r *vlib.Run, id, rule string, w *workspace) c27Outcome {
 	ctx := context.Background()
 	var oc c27Outcome
+	if _, ok := w.closure()["google/protobuf/descriptor.proto"]; ok && rule == "" {
+		// input class: the workspace supplies its own descriptor.proto
+		rule = "input overrides google/protobuf/descriptor.proto"
+	}
 	st := stableCompile(ctx, w, 0)
 	env := newExpEnv(w.Files, 0)
 	ex := env.runLink(ctx, w.Targets)
@@ -49,12 +53,22 @@ func c27Compare(r *vlib.Run, id, rule string, w *workspace) c27Outcome {
 		r.Violation("c27.panic", "experimental compiler: "+ex.Panic, id, map[string]any{"workspace": w.closure(), "targets": w.Targets})
 		return oc
 	}
+	// An internal compiler error counts as a rejection (the convention of the
+	// project's adapter). It is a C27 violation only through an accept/reject
+	// mismatch; ICEs on inputs both compilers reject are recorded in the
+	// evidence (class "observed-ice:…") but decide nothing here.
+	iceSig := ""
 	if ex.Report != nil {
 		for i := range ex.Report.Diagnostics {
 			if d := &ex.Report.Diagnostics[i]; d.Level() == 1 /* ICE */ {
-				r.Violation("c27.ice", "experimental compiler reports an internal compiler error: "+normMsg(d.Message()), id,
-					map[string]any{"workspace": w.closure(), "targets": w.Targets, "message": d.Message(), "notes": d.Notes(), "debug": d.Debug()})
-				return oc
+				note := ""
+				if len(d.Notes()) > 0 {
+					note = "; " + normMsg(d.Notes()[0])
+				}
+				iceSig = "ICE " + normMsg(d.Message()) + note + " at " + vlib.PanicSite(strings.Join(d.Debug(), "\n"))
+				r.Class("observed-ice: " + iceSig)
+				r.Sample("observed-ice: "+iceSig, map[string]any{"workspace": w.closure(), "targets": w.Targets, "notes": d.Notes()})
+				break
 			}
 		}
 	}
@@ -64,6 +78,9 @@ func c27Compare(r *vlib.Run, id, rule string, w *workspace) c27Outcome {
 		wit := map[string]any{"workspace": w.closure(), "targets": w.Targets, "rule": rule}
 		if oc.stableAccepts {
 			sig = "stable accepts, experimental rejects: " + normMsg(ex.firstError())
+			if iceSig != "" {
+				sig = "stable accepts, experimental rejects: " + iceSig
+			}
 			wit["experimental_error"] = ex.firstError()
 			wit["experimental_report"] = renderReport(ex.Report)
 		} else {
